@@ -1,9 +1,9 @@
 SPECIFICATION Spec
 CONSTANTS
   Geoms <- Boxes
-  MaxN = 3
-  MaxM = 3
-  MaxTotal = 5
+  MaxN = 2
+  MaxM = 2
+  MaxTotal = 4
   ZeroPairs = "split"
   ExportAt = "matrix"
 CONSTRAINT Export
